@@ -443,4 +443,8 @@ class ProgressBar(object):
         return self._max
 
     def _formatter_percent(self):
-        return int(math.floor(self._percent * 100))
+        if not self._max:
+            return 0
+
+        # Integer arithmetic: floor(29 / 100 * 100) is 28 with floats
+        return self._step * 100 // self._max
